@@ -354,6 +354,22 @@ def run(run):
                         ok = check(run, case)
                         run.count('kind:table-sweep')
                         run.case(h64((framing, 'table-sweep', pos_field, v, bit)), True, sample=None)
+    # binary frames whose unit id IS the start character's code (unit 123 = 0x7B, a legal address): every byte value inserted at every
+    # position - among them a second 0x7B next to the first, which a receiver that "un-doubles" braces before checking would accept
+    if run.shard in (None, 0):
+        for m in ({'dir': REQ, 'fc': 3, 'address': 0x0102, 'count': 3}, {'dir': REQ, 'fc': 6, 'address': 0x0010, 'value': 0x1234},
+                  {'dir': REQ, 'fc': 16, 'address': 0x0020, 'registers': [0x0005, 0x0607, 0x0809]}, {'dir': REQ, 'fc': 15, 'address': 0x0030, 'bits': [True, False, True, True]},
+                  {'dir': RSP, 'fc': 3, 'registers': [0x0102, 0x0304]}, {'dir': RSP, 'fc': 1, 'bits': [True] * 8}):
+            frame = ADU.build('binary', 0x7B, S.encode(m))
+            if any(b in (0x7B, 0x7D) for b in frame[2:-1]):
+                continue
+            for i in range(1, len(frame)):
+                for v in ([0x7B, 0x7D, 0x00, 0xFF] if not run.thorough else range(256)):
+                    bad = frame[:i] + bytes([v]) + frame[i:]
+                    case = {'framing': 'binary', 'dir': m['dir'], 'chunks': [bad], 'context': [], 'corruption': ['insert-unit-7b', i, v], 'original': frame}
+                    check(run, case)
+                    run.count('kind:insert-unit-7b')
+                    run.case(h64(('binary', 'insert-unit-7b', repr(m), i, v)), True, sample=None)
     run.floor('corruptions per framing (min)', min(run.counters.get('corruptions:%s' % f, 0) for f in FRAMINGS), 5000 if run.shard is None else 300)
     run.floor('deliveries judged', run.counters.get('justification_checks', 0), 2000 if run.shard is None else 100)
     run.floor('single-bit flips', run.counters.get('kind:flip1', 0), 2000 if run.shard is None else 100)
